@@ -190,6 +190,17 @@ def gen_cases(seed, chunk, n, tier):
                         got[st:st + d] = sol.blocks[(c,)]
                 if float(np.abs(got - ref).max()) > 1e-8 * max(1.0, float(np.abs(ref).max())):
                     orc = "the solution differs from numpy.linalg.solve on the dense system"
+                else:
+                    # the solution vector as an array: its own index must be the conjugate of a's column index, so
+                    # that its dense form is the dense solution
+                    want_ix = a.indices[1].conj()
+                    if dict(sol.indices[0].chargemap) != dict(want_ix.chargemap) or sol.indices[0].dual != want_ix.dual:
+                        orc = (f"the solution's index {dict(sol.indices[0].chargemap)} (dual={sol.indices[0].dual}) is not the "
+                               f"conjugate of the matrix's column index {dict(want_ix.chargemap)} (dual={want_ix.dual})")
+                    else:
+                        ds = np.asarray(sol.to_dense()).astype("complex128")
+                        if ds.shape != ref.shape or float(np.abs(ds - ref).max()) > 1e-8 * max(1.0, float(np.abs(ref).max())):
+                            orc = "to_dense of the solution differs from numpy.linalg.solve on the dense system"
                 nontrivial = len(a.blocks) >= 2
                 env = {"x": a}
         except _Skip:
